@@ -82,17 +82,33 @@ class VStr(V):
 
 
 class VBytes(V):
-    """bytes / bytearray / memoryview as Seq(Int); elements are in 0..255 (assumed where a byte is decoded)"""
-    __slots__ = ("e", "kind")
+    """bytes / bytearray / memoryview as Seq(Int); elements are in 0..255 (assumed where a byte is decoded).
+    `units`: when the length is statically known, the tuple of element terms (then e == Concat(Unit(u)...)); lets fixed
+    size headers be handled by plain arithmetic instead of sequence reasoning."""
+    __slots__ = ("e", "kind", "units")
 
-    def __init__(self, e, kind="bytes"):
+    def __init__(self, e, kind="bytes", units=None):
         if isinstance(e, (bytes, bytearray)):
+            units = tuple(z3.IntVal(x) for x in bytes(e))
             e = bytes_const(bytes(e))
         self.e = e
         self.kind = kind
+        self.units = None if units is None else tuple(units)
+
+    @staticmethod
+    def from_units(units, kind="bytes"):
+        units = tuple(units)
+        return VBytes(units_seq(units), kind, units)
 
     def __repr__(self):
         return "VBytes(%s)" % self.e
+
+
+def units_seq(units):
+    if len(units) == 0:
+        return z3.Empty(BytesS)
+    us = [z3.Unit(u) for u in units]
+    return us[0] if len(us) == 1 else z3.Concat(*us)
 
 
 def bytes_const(b):
@@ -277,6 +293,57 @@ def seq_slice(s, lo, hi, n=None):
     lo2 = zero if lo is None else norm(lo)
     hi2 = ln if hi is None else norm(hi)
     return z3.SubSeq(s, lo2, z3.If(hi2 - lo2 < 0, zero, hi2 - lo2))
+
+
+def simple_slice(s, lo, hi):
+    """s[lo:hi] for bounds known to be non-negative (None = open end): SMT-LIB extract clamps exactly like Python"""
+    lo = z3.IntVal(0) if lo is None else lo
+    hi = z3.Length(s) if hi is None else hi
+    return z3.SubSeq(s, lo, sym_sub(hi, lo))
+
+
+def _addends(e):
+    if z3.is_add(e):
+        out = []
+        for c in e.children():
+            out.extend(_addends(c))
+        return out
+    return [e]
+
+
+def sym_sub(hi, lo):
+    """hi - lo with common addends cancelled syntactically (no z3.simplify: it rewrites seq.nth into internal forms)"""
+    ha, la = _addends(hi), _addends(lo)
+    const = 0
+    rest_h = []
+    for t in ha:
+        if z3.is_int_value(t):
+            const += t.as_long()
+        else:
+            rest_h.append(t)
+    rest_l = []
+    for t in la:
+        if z3.is_int_value(t):
+            const -= t.as_long()
+        else:
+            rest_l.append(t)
+    for t in list(rest_l):
+        for u in rest_h:
+            if z3.eq(t, u):
+                rest_h.remove(u)
+                rest_l.remove(t)
+                break
+    terms = list(rest_h)
+    e = None
+    for t in terms:
+        e = t if e is None else e + t
+    for t in rest_l:
+        e = (-t) if e is None else e - t
+    if e is None:
+        return z3.IntVal(const)
+    if const:
+        e = e + const
+    return e
 
 
 def simp(e):
